@@ -37,7 +37,7 @@ SV = 'hybrid 2-d source array(s) (capacity 16) with symbolic extents 1..MAXE and
 
 
 def _vc(e=3, **kw):
-    c = {'MAXE': e, '_unwindset': ['in_data.0:%d' % (e * e + 2), 'k_fill_u32.0:%d' % (e * e + 2)]}; c.update(kw); return c
+    c = {'MAXE': e, '_unwindset': ['in_data.0:%d' % (e * e + 2), 'k_fill_u32.0:%d' % (e * e + 2), 'k_fill_u32.1:%d' % (e * e + 2)]}; c.update(kw); return c
 
 
 def _v(name, bounds, func=None, unwind=7, quick=None, thorough=None, **kw):
